@@ -310,6 +310,10 @@ def loadOf (f : Func) (T : DomTab) (u : Pos) (x : String) : Option Operand :=
   | some (px, _, v, _, _) => if sdomPt T px u then some v else none
   | none => none
 
+def loadOfOp (f : Func) (T : DomTab) (u : Pos) : Operand → Option Operand
+  | .loc x => loadOf f T u x
+  | .glob _ => none
+
 /-- `o'` provably holds the value of `o` at point `u`; `ty` = the module passes `tyCheck` -/
 def justB (f : Func) (T : DomTab) (ty : Bool) (u : Pos) : Nat → Operand → Operand → Bool
   | 0, o, o' => o == o'
@@ -318,11 +322,9 @@ def justB (f : Func) (T : DomTab) (ty : Bool) (u : Pos) : Nat → Operand → Op
     (ty && (match copyOf f T u (n + 1) o with
        | some a => justB f T ty u n a o'
        | none => false)) ||
-    (ty && (match o with
-       | .loc x => (match loadOf f T u x with
-           | some v => justB f T ty u n v o'
-           | none => false)
-       | .glob _ => false)) ||
+    (ty && (match loadOfOp f T u o with
+       | some v => justB f T ty u n v o'
+       | none => false)) ||
     (match knownInt f T u (n + 1) o, knownInt f T u (n + 1) o' with
      | some v, some v' => v == v'
      | _, _ => false) ||
@@ -366,6 +368,27 @@ def cjFold (f : Func) (T : DomTab) (u : Pos) (fuel : Nat) : Instr → Instr → 
      | _, _ => false)
   | _, _ => false
 
+/-- the chain rewrite of `ConstantFolder`: `x := (y op c1) op c2` becomes `x := y op c3` for `op ∈ {+, -}` at an
+    integer type, where `c1 c2 c3` are known integers with `c3 ≡ c1 + c2` modulo the width -/
+def chainFold (f : Func) (T : DomTab) (u : Pos) (fuel : Nat) : Instr → Instr → Bool
+  | .binop d (.int t) op tt c2, .binop d' (.int t') op' y c3 =>
+    d = d' && t = t' && op = op' && (op = .add || op = .sub) &&
+    (match tt with
+     | .loc x =>
+       (match defPos f x with
+        | some pt =>
+          sdomPt T pt u &&
+          (match instrAtPos f pt with
+           | some (.binop _ (.int t1) op1 y1 c1) =>
+             t1 = t && op1 = op && y1 = y &&
+             (match knownInt f T u fuel c1, knownInt f T u fuel c2, knownInt f T u fuel c3 with
+              | some k1, some k2, some k3 => Spec.IRArith.wrap t (k1 + k2) == Spec.IRArith.wrap t k3
+              | _, _, _ => false)
+           | _ => false)
+        | none => false)
+     | .glob _ => false)
+  | _, _ => false
+
 /-- the callee of a call is never replaced -/
 def calleeSame : Instr → Instr → Bool
   | .fcall _ _ c _, .fcall _ _ c' _ => c = c'
@@ -374,7 +397,7 @@ def calleeSame : Instr → Instr → Bool
 
 /-- instruction `i` at point `u` of `f` may become `i'` -/
 def instrOk (f : Func) (T : DomTab) (ty : Bool) (u : Pos) (i i' : Instr) : Bool :=
-  i = i' || cjFold f T u (justFuel f) i i' ||
+  i = i' || cjFold f T u (justFuel f) i i' || chainFold f T u (justFuel f) i i' ||
   (let σ := (allOps i).zip (allOps i')
    let g : Operand → Operand := fun o => (lookupOp σ o).getD o
    i' = mapOps g i && calleeSame i i' &&
